@@ -254,6 +254,11 @@ pub trait Check: Sync + Send + 'static {
     fn case_timeout_s() -> u64 {
         20
     }
+    /// The check calls `kit::phase("code-under-test")` before handing control to the
+    /// library; a hang before that point is the harness's and is reported as exit 2.
+    fn announces_phase() -> bool {
+        false
+    }
 }
 
 // ---------------------------------------------------------------- panics
@@ -760,6 +765,11 @@ fn write_evidence<C: Check>(
     for (k, v) in C::extra_coverage() {
         cov.insert(k, v);
     }
+    if let Ok(f) = std::env::var("E57_FUZZ_SUMMARY") {
+        if let Some(v) = std::fs::read_to_string(&f).ok().and_then(|t| serde_json::from_str::<serde_json::Value>(&t).ok()) {
+            cov.insert("fuzz_campaign".into(), v);
+        }
+    }
     let ev = serde_json::json!({
         "property_id": C::ID,
         "tier": opts.tier.name(),
@@ -790,6 +800,20 @@ pub fn fill_bytes(seed: u64, len: usize) -> Vec<u8> {
 }
 
 // ------------------------------------------------------------------ isolation
+
+static WORKER_MODE: AtomicBool = AtomicBool::new(false);
+
+/// Worker processes announce when a case hands control to the code under test, so
+/// that the supervisor can tell a hang of the library from a slow harness step.
+pub fn phase(name: &str) {
+    if WORKER_MODE.load(Ordering::Relaxed) {
+        use std::io::Write;
+        let out = std::io::stdout();
+        let mut o = out.lock();
+        let _ = writeln!(o, "{}", serde_json::json!({"t": "phase", "p": name}));
+        let _ = o.flush();
+    }
+}
 
 fn unhex(s: &str) -> Vec<u8> {
     (0..s.len() / 2).filter_map(|i| u8::from_str_radix(&s[2 * i..2 * i + 2], 16).ok()).collect()
@@ -822,6 +846,7 @@ fn limit_process_memory() {
 pub fn worker_main<C: Check>(opts: &RunOpts) -> i32 {
     use std::io::Write;
     let (shard, shards, from) = opts.worker.unwrap_or((0, 1, 0));
+    WORKER_MODE.store(true, Ordering::Relaxed);
     limit_process_memory();
     let known = load_known();
     let fixed = C::fixed(opts.tier);
@@ -931,7 +956,8 @@ fn stderr_tail(p: &Path) -> String {
 enum Alone {
     Done(serde_json::Value),
     Died(String),
-    Hung,
+    /// hung; the flag tells whether the code under test had been entered
+    Hung(bool),
 }
 
 fn run_alone(id: &str, opts: &RunOpts, idx: usize, timeout_s: u64) -> Alone {
@@ -944,6 +970,7 @@ fn run_alone(id: &str, opts: &RunOpts, idx: usize, timeout_s: u64) -> Alone {
     let Ok(mut c) = spawn_self(&args, &format!("alone-{idx}")) else { return Alone::Died("cannot spawn".into()) };
     let deadline = Instant::now() + std::time::Duration::from_secs(timeout_s);
     let mut done = None;
+    let mut entered = false;
     loop {
         let left = deadline.saturating_duration_since(Instant::now());
         match c.rx.recv_timeout(left) {
@@ -951,6 +978,8 @@ fn run_alone(id: &str, opts: &RunOpts, idx: usize, timeout_s: u64) -> Alone {
                 if let Ok(v) = serde_json::from_str::<serde_json::Value>(&l) {
                     if v["t"] == "done" {
                         done = Some(v);
+                    } else if v["t"] == "phase" {
+                        entered = true;
                     }
                 }
             }
@@ -959,7 +988,7 @@ fn run_alone(id: &str, opts: &RunOpts, idx: usize, timeout_s: u64) -> Alone {
                 let _ = c.child.kill();
                 let _ = c.child.wait();
                 let _ = std::fs::remove_file(&c.stderr_path);
-                return Alone::Hung;
+                return Alone::Hung(entered);
             }
         }
     }
@@ -1115,7 +1144,12 @@ pub fn supervise<C: Check>(opts: &RunOpts) -> i32 {
                                     let _ = c.child.wait();
                                     let _ = std::fs::remove_file(&c.stderr_path);
                                     match run_alone(id, opts, idx, C::case_timeout_s() * 3) {
-                                        Alone::Hung => {
+                                        Alone::Hung(entered) => {
+                                            if C::announces_phase() && !entered {
+                                                inconclusive.lock().unwrap().push(format!("infrastructure: case #{idx} exceeds the watchdog inside the harness (before the code under test is entered)"));
+                                                stop.store(true, Ordering::Relaxed);
+                                                return;
+                                            }
                                             let mut f = found.lock().unwrap();
                                             if f.as_ref().map(|x| idx < x.0).unwrap_or(true) {
                                                 *f = Some((idx, format!("does not terminate: a single case ran for more than {} s twice (alone for {} s)", C::case_timeout_s(), C::case_timeout_s() * 3), serde_json::Value::Null, None));
@@ -1157,7 +1191,7 @@ pub fn supervise<C: Check>(opts: &RunOpts) -> i32 {
                                                 stop.store(true, Ordering::Relaxed);
                                                 return;
                                             }
-                                            Alone::Hung => {
+                                            Alone::Hung(_) => {
                                                 let mut f = found.lock().unwrap();
                                                 if f.as_ref().map(|x| idx < x.0).unwrap_or(true) {
                                                     *f = Some((idx, "does not terminate when run alone".into(), serde_json::Value::Null, None));
@@ -1322,4 +1356,75 @@ pub fn replay_supervised(id: &str, opts: &RunOpts, path: &Path, timeout_s: u64) 
         Some(2) => ReplayEnd::Infra(format!("{text} {tail}")),
         _ => ReplayEnd::Fail(format!("the process aborted or was killed ({st:?}): {tail}")),
     }
+}
+
+
+// ------------------------------------------------------------------ fuzzing glue
+
+/// Generate the case encoded by a tape and evaluate the property on it.
+/// Listed known findings and infrastructure problems are not violations.
+pub fn fuzz_case<C: Check>(data: &[u8]) -> Option<String> {
+    static KNOWN: std::sync::OnceLock<Vec<KnownFinding>> = std::sync::OnceLock::new();
+    let known = KNOWN.get_or_init(load_known);
+    let mut src = Src::from_tape(data.to_vec());
+    let case = guard(|| C::gen(&mut src, Tier::Thorough)).ok()?;
+    match settle(C::ID, known, run_guarded::<C>(&case)).outcome {
+        Outcome::Fail(m) => Some(m),
+        _ => None,
+    }
+}
+
+/// `--tape-one FILE`: evaluate the case encoded by a saved tape (a libFuzzer
+/// artefact); on a violation write the replay file and report it.
+pub fn tape_one<C: Check>(path: &Path) -> i32 {
+    let known = load_known();
+    let data = match std::fs::read(path) {
+        Ok(d) => d,
+        Err(e) => {
+            eprintln!("cannot read {}: {e}", path.display());
+            return 2;
+        }
+    };
+    limit_process_memory();
+    let (small, _) = {
+        let mut src = Src::from_tape(data.clone());
+        let case = match guard(|| C::gen(&mut src, Tier::Thorough)) {
+            Ok(c) => c,
+            Err(_) => return 0,
+        };
+        if !settle(C::ID, &known, run_guarded::<C>(&case)).failed() {
+            println!("{}: tape {} does not violate the property", C::ID, path.display());
+            return 0;
+        }
+        shrink::<C>(Tier::Thorough, &known, data, 800)
+    };
+    let mut src = Src::from_tape(small.clone());
+    let case = C::gen(&mut src, Tier::Thorough);
+    let v = settle(C::ID, &known, run_guarded::<C>(&case));
+    let msg = match v.outcome {
+        Outcome::Fail(m) => m,
+        _ => "violation (message lost while shrinking)".to_string(),
+    };
+    let rf = ReplayFile { property: C::ID.to_string(), message: msg.clone(), case, tape_hex: Some(hex(&small)) };
+    let js = serde_json::to_string_pretty(&rf).unwrap_or_default();
+    let out = out_dir().join(format!("{}-{:016x}.json", C::ID, hash_str(&js)));
+    let _ = std::fs::write(&out, js);
+    println!("{}: fuzzing artefact {} violates the property: {msg}", C::ID, path.display());
+    println!("VIOLATION property={} replay={}", C::ID, out.display());
+    1
+}
+
+/// `--dump-tapes DIR N`: write the choice tapes of the first N random cases as
+/// a starting corpus for the coverage-guided campaign.
+pub fn dump_tapes<C: Check>(dir: &Path, n: usize, seed: u64) -> i32 {
+    let _ = std::fs::create_dir_all(dir);
+    let base = mix(seed, hash_str(C::ID));
+    let fixed = C::fixed(Tier::Quick).len();
+    for i in 0..n {
+        let mut src = Src::from_seed(mix(base, (fixed + i) as u64));
+        if guard(|| C::gen(&mut src, Tier::Thorough)).is_ok() {
+            let _ = std::fs::write(dir.join(format!("seed-{i:05}")), src.tape());
+        }
+    }
+    0
 }
